@@ -81,6 +81,7 @@ StartOK(t) ==
 \* which properties a premature start breaches: always C01; C11 when a service it needs is not up;
 \* C07 when something it depends on has failed
 StartProps(t) == {"C01"} \cup (IF ~g.watch /\ \E d \in EffDeps(t) : g.kind[d] = "s" /\ ~ready[d] THEN {"C11"} ELSE {})
+                        \cup (IF ~g.scale /\ \E d \in Deps(t) : g.kind[d] = "s" /\ word[t][d]["s"] # "ok" THEN {"C11"} ELSE {})
                         \cup (IF ~g.watch /\ \E d \in TransDeps(t) : failed[d] THEN {"C07"} ELSE {})
 \* C01: an aggregate forwards Ok{k} only when all its dependencies' last word for k is ok
 AggOK(t, k) == \A d \in Deps(t) : word[t][d][k] = "ok"
